@@ -96,6 +96,13 @@ def strat_load(draw, tier):
             p = draw(st.integers(1, 17))
             if (c, p) not in used:
                 pre.append([c[0], c[1], p])
+    # requested cores that already hold their binary and wait under the same
+    # application id (an earlier load of the same map that was interrupted);
+    # only in the per-core verification mode, see `pre`
+    preloaded = []
+    if use_count is False and used and draw(st.booleans()):
+        preloaded = [[c[0], c[1], p] for c, p in draw(st.lists(
+            st.sampled_from(sorted(used)), max_size=3, unique=True))]
     second = None
     if draw(st.integers(0, 2)) == 0:
         # a later load on the same controller of a binary with the same file
@@ -121,7 +128,7 @@ def strat_load(draw, tier):
                       "targets": [[c[0], c[1], p] for c, p in picks],
                       "app_id": draw(st.sampled_from([17, 200]))}
     return {"buffer": buf, "w": w, "map": amap, "miss": miss,
-            "second": second,
+            "second": second, "preloaded": preloaded,
             "vcpu_bases": draw(st.integers(0, 2)) == 0,
             "app_id": draw(st.sampled_from([66, 1, 255, 30])),
             # the flag is also given the way C-minded callers give it (0 / 1)
@@ -177,6 +184,12 @@ def check_load(case):
             for (x, y), cores in amap[path].items():
                 for p in cores:
                     wanted[(x, y, p)] = img
+        busy = set((x, y, p) for x, y, p, _ in case.get("busy", []))
+        for x, y, p in case.get("preloaded", []):
+            if (x, y, p) in wanted and (x, y, p) not in busy:
+                c = m.chips[(x, y)].cores[p]
+                c.state, c.app_id, c.image = 5, app, wanted[(x, y, p)]
+                m.chips[(x, y)].sync_core(p)
         before = dict(((x, y, p), (c.state, c.app_id, c.image))
                       for (x, y), chip in m.chips.items()
                       for p, c in enumerate(chip.cores))
